@@ -419,7 +419,7 @@ structure Special where
   d2 : Nat
   n1 : Option Num
   n2 : Option Num
-  deriving Repr
+  deriving Repr, DecidableEq
 
 def scanNum (ls : List String) : Option (Nat × Num) :=
   match scan ls 1 with
@@ -488,7 +488,7 @@ inductive Out where
   | one (labels : List String) (shape : List Nat)      -- nadded = 1, flat lists
   | many (cands : List (List String × List Nat))       -- lists of candidates (nadded = their number)
   | error                                              -- Python raises
-  deriving Repr
+  deriving Repr, DecidableEq
 
 def istr (k : Int) : String := toString k
 
@@ -629,7 +629,7 @@ structure Par where
   diff2 : List Nat
   num1 : List (Option Num)
   num2 : List (Option Num)
-  deriving Repr
+  deriving Repr, DecidableEq
 
 def Par.empty : Par := ⟨[], [], [], [], []⟩
 
